@@ -12,7 +12,7 @@ import (
 // Cfg is one point of the encoder-configuration space.
 type Cfg struct {
 	LevelKey, LevelEnc   string // lower capital lowercolor capitalcolor nil noop
-	TimeKey, TimeEnc     string // epoch epochmillis epochnanos iso8601 rfc3339 rfc3339nano layout nil noop
+	TimeKey, TimeEnc     string // epoch epochmillis epochnanos iso8601 rfc3339 rfc3339nano layout plainlayout nil noop
 	NameKey, NameEnc     string // full nil noop
 	CallerKey, CallerEnc string // short full nil noop
 	FunctionKey          string
@@ -26,6 +26,11 @@ type Cfg struct {
 
 // HostileLayout is a time layout containing characters that need escaping.
 const HostileLayout = "2006-01-02 \"q\" \\ \t15:04:05 MST"
+
+// PlainLayout is a harmless layout that prints the zone NAME: with a time whose
+// location name needs escaping the hostile bytes come from the value, not from
+// the layout.
+const PlainLayout = time.RFC1123
 
 func noopLevel(zapcore.Level, zapcore.PrimitiveArrayEncoder)        {}
 func noopTime(time.Time, zapcore.PrimitiveArrayEncoder)             {}
@@ -66,6 +71,8 @@ func (c Cfg) EncoderConfig() zapcore.EncoderConfig {
 		ec.EncodeTime = zapcore.RFC3339NanoTimeEncoder
 	case "layout":
 		ec.EncodeTime = zapcore.TimeEncoderOfLayout(HostileLayout)
+	case "plainlayout":
+		ec.EncodeTime = zapcore.TimeEncoderOfLayout(PlainLayout)
 	case "noop":
 		ec.EncodeTime = noopTime
 	}
@@ -219,6 +226,9 @@ func (c Cfg) timeValue(t time.Time) *jsonx.Node {
 	if c.TimeEnc == "layout" {
 		return jsonx.S(t.Format(HostileLayout))
 	}
+	if c.TimeEnc == "plainlayout" {
+		return jsonx.S(t.Format(PlainLayout))
+	}
 	return TimeNode(t, Ref{Time: c.TimeEnc})
 }
 
@@ -267,6 +277,8 @@ func (c Cfg) ConsoleColumns(e Ent) []string {
 			cols = append(cols, fmt.Sprint(e.Time.UnixNano()))
 		case "layout":
 			cols = append(cols, e.Time.Format(HostileLayout))
+		case "plainlayout":
+			cols = append(cols, e.Time.Format(PlainLayout))
 		default:
 			cols = append(cols, TimeNode(e.Time, Ref{Time: c.TimeEnc}).Text)
 		}
@@ -307,7 +319,7 @@ func AllConfigs(f func(Cfg)) int {
 		return out
 	}
 	levels := opt("level", "lower", "capital", "lowercolor", "capitalcolor", "nil", "noop")
-	times := opt("ts", "epoch", "epochmillis", "epochnanos", "iso8601", "rfc3339", "rfc3339nano", "layout", "nil", "noop")
+	times := opt("ts", "epoch", "epochmillis", "epochnanos", "iso8601", "rfc3339", "rfc3339nano", "layout", "plainlayout", "nil", "noop")
 	names := opt("logger", "full", "nil", "noop")
 	callers := opt("caller", "short", "full", "nil", "noop")
 	for _, l := range levels {
